@@ -60,3 +60,41 @@ def syntax_error_line(text):
     if not m:
         return None, None
     return int(m.group(1)), m.group(2).split("\n")[0]
+
+
+def groups_of(flat, lay, fixed=False):
+    """[[first, last, [canonical lines], [kinds]]] per logical line of a layout, in source order."""
+    by = {}
+    order = []
+    for st, _ in flat:
+        sp = lay.span[st.uid]
+        if sp not in by:
+            by[sp] = [sp[0], sp[1], [], []]
+            order.append(sp)
+        if fixed:
+            text = (st.label or "").ljust(5) + " " + ((st.cname + ": ") if st.cname else "") + st.src
+        else:
+            text = gen.stmt_text(st)
+        by[sp][2].append(text)
+        by[sp][3].append(st.kind)
+    return [by[sp] for sp in order]
+
+
+def isolate_group(case, fails, key="laid"):
+    """Find one logical line whose layout alone reproduces the failure.
+    Returns (kinds string, laid-out lines of that group) or (None, None)."""
+    groups = case.get("groups")
+    if not groups:
+        return None, None
+    lines = case[key].split("\n")
+    for gi, (first, last, canon_lines, kinds) in enumerate(groups):
+        out = []
+        for gj, (f2, l2, c2, _) in enumerate(groups):
+            if gi == gj:
+                out.extend(lines[f2 - 1:l2])
+            else:
+                out.extend(c2)
+        text = "\n".join(out) + "\n"
+        if fails(text):
+            return "+".join(kinds), "\n".join(lines[first - 1:last])
+    return "multi", None
